@@ -1009,8 +1009,8 @@ def run(ctx, anchors=None):
     ncs14 = 0
     skipped14 = []
     for f in sorted(fb.funcs.values(), key=lambda f_: f_.id):
-        if not auth(f) or f.d.get("main") or len(f.nodes()) > 2500:
-            continue
+        if not auth(f) or f.d.get("main") or len(f.nodes()) > 900:
+            continue      # drivers are too large to enumerate path by path; the rule is about the small decoding helpers
         sized, subs = set(), set()
         for n in f.nodes():
             if n["k"] == "bin" and n["op"] in ("==", "!=") and (astq.const_value(n["lhs"]) is not None or astq.const_value(n["rhs"]) is not None):
@@ -1030,7 +1030,7 @@ def run(ctx, anchors=None):
             continue
         X = _sx.Explorer(prog, inline=lambda fn, n_: False, transparent=lambda n_: True)
         try:
-            outs = X.explore(f, this=("a", "this"), limit=3000)
+            outs = X.explore(f, this=("a", "this"), limit=600)
         except _sx.Unsupported as e:
             skipped14.append("%s: %s" % (f.name, str(e)[:50]))
             continue
